@@ -30,6 +30,17 @@ CLAIMS = {
              "work constant is measured (steps per token on both sides), not proved; stack depth is a runtime measurement.",
         tech="Lean 4 proof: verified abstract-interpretation checker (total-correctness soundness theorem) + decide +kernel on the grammar",
         ref="DESIGN.md §7 C02"),
+    "C06": dict(
+        text="Lean theorems on the SymbolMap model for ARBITRARY operation logs (so also for malformed programs): "
+             "cursor_is_target_or_reference (unconditional), goto_from_references_agrees (under RefStable + DisjointLocs), "
+             "same_text (under TextOk + NamedRefs + DisjointLocs). The real indexer's operation log (hook in symbol_map.rs) is "
+             "replayed through the model and go-to-definition/find-references are compared at identifier offsets of every "
+             "workspace; the log hypotheses are evaluated on every real log; the four coherence clauses are also evaluated "
+             "directly on Analysis::goto_definition/references.",
+        note="Model: SymbolMap.lean vs ide/src/symbol_map.rs; iset::IntervalMap semantics assumed as documented in the model; "
+             "the log hypotheses are checked per run, not proved for the indexer.",
+        tech="Lean 4 proof (invariants over operation logs) + op-sequence correspondence by replaying the real log",
+        ref="DESIGN.md §7 C06"),
     "C10": dict(
         text="Lean theorems for all texts: roundtrip (every char-boundary offset converts to a position and back), "
              "boundary_has_position (totality), line_contains, column_is_utf16, only LF/CR/CRLF break lines, clamp, "
